@@ -893,6 +893,8 @@ PUBLIC_ROOTS = [
     "_core:ArgumentParser.format_help",
     "_typehints:adapt_typehints",
     "_namespace:dict_to_namespace",
+    "_jsonnet:ActionJsonnet.parse",
+    "_jsonnet:ActionJsonnet.split_ext_vars",
     "_namespace:namespace_to_dict",
     "_completions:ShtabAction.__call__",
     "_actions:_ActionHelpClassPath.__call__",
